@@ -94,6 +94,11 @@ func (j *judge) explore(nodes map[string]*node, bp BatchProject, seed, pidx uint
 						left -= c
 					}
 					add(p)
+					// the same stream without a declared length (chunked transfer coding)
+					q := *p
+					q.ID = pl.nextID()
+					q.UnknownLength = true
+					add(&q)
 				}
 				break
 			}
